@@ -49,7 +49,7 @@ theorem exec_compile_arith_partial (S : Sim) (n : Nat) (e : Expr) (env : Env) (l
     -- an early return: the VM stands before `Return` with exactly `v :: base` on the stack
     (∀ v l, evalExpr S.m.p n env log e = .ret v l →
         ∃ envJ pcR, Steps S.m s0 ⟨v :: base, envJ :: fr, K, pcR, l⟩ ∧ S.m.prog[pcR]? = some .Return) := by
-  have h := (sim_all S n).1 e env log wp c junk base fr K hfrag hcode hdefs
+  have h := (sim_all S n).e e env log wp c junk base fr K hfrag hcode hdefs
   refine ⟨?_, ?_, ?_⟩
   · intro v l hv; rw [hv] at h; exact h
   · intro r l hv; rw [hv] at h; exact h
